@@ -468,6 +468,19 @@ impl<T: Debug + PartialEq, F: RealNumber, D: Distance<T, F>> CoverTree<T, F, D> 
     }
 }
 
+/// Verification hooks (cfg `smartcore_verif` only): the private scale functions of the construction.
+#[cfg(smartcore_verif)]
+impl<T: Debug + PartialEq, F: RealNumber, D: Distance<T, F>> CoverTree<T, F, D> {
+    /// `get_scale(d)`
+    pub fn verif_get_scale(&self, d: F) -> i64 {
+        self.get_scale(d)
+    }
+    /// `get_cover_radius(s)`
+    pub fn verif_get_cover_radius(&self, s: i64) -> F {
+        self.get_cover_radius(s)
+    }
+}
+
 #[cfg(test)]
 mod tests {
 
